@@ -633,6 +633,15 @@ pub fn c13(cx: &mut Ctx) {
             if exp.is_some() && cx.rng.gen_bool(0.2) {
                 headers.push(b"Expect: 100-continue".to_vec());
             }
+            // a second Expect line with another (unsupported or supported) value, before or after
+            if cx.rng.gen_bool(0.25) {
+                let other: &[u8] = *[&b"Expect: 102-processing"[..], b"expect:", b"EXPECT: 100-continue", b"Expect: 100-continue, x"].choose(&mut cx.rng).unwrap();
+                if cx.rng.gen_bool(0.5) {
+                    headers.push(other.to_vec());
+                } else {
+                    headers.insert(0, other.to_vec());
+                }
+            }
             let r = Req { method: m.to_vec(), uri: b"/e".to_vec(), version: v.to_vec(), headers, body };
             s.extend(r.bytes());
         }
